@@ -43,7 +43,7 @@ use bindgroup::{bind_groups_module, get_bind_group_data};
 use consts::pipeline_overridable_constants;
 use entry::{entry_point_constants, fragment_states, vertex_states, vertex_struct_methods};
 use naga::{valid::ValidationFlags, WithSpan};
-use proc_macro2::{Literal, Span, TokenStream};
+use proc_macro2::{Delimiter, Literal, Span, TokenStream, TokenTree};
 use quote::quote;
 use syn::Ident;
 use thiserror::Error;
@@ -467,12 +467,51 @@ fn pretty_print_rustfmt(tokens: TokenStream) -> String {
         if let Ok(output) = proc.wait_with_output() {
             if written && output.status.success() && !output.stdout.is_empty() {
                 if let Ok(formatted) = String::from_utf8(output.stdout) {
-                    return formatted;
+                    // rustfmt may exit successfully without reading its input,
+                    // so only accept output that is still the same program.
+                    if is_same_program(&formatted, &tokens) {
+                        return formatted;
+                    }
                 }
             }
         }
     }
     value.to_string()
+}
+
+// Formatting only changes whitespace and trailing commas.
+fn is_same_program(formatted: &str, tokens: &TokenStream) -> bool {
+    match formatted.parse::<TokenStream>() {
+        Ok(formatted) => token_text(formatted) == token_text(tokens.clone()),
+        Err(_) => false,
+    }
+}
+
+// The tokens separated by spaces without trailing commas.
+fn token_text(tokens: TokenStream) -> String {
+    let mut text = String::new();
+    let mut tokens = tokens.into_iter().peekable();
+    while let Some(token) = tokens.next() {
+        match token {
+            TokenTree::Group(group) => {
+                let (open, close) = match group.delimiter() {
+                    Delimiter::Parenthesis => ("(", ")"),
+                    Delimiter::Brace => ("{", "}"),
+                    Delimiter::Bracket => ("[", "]"),
+                    Delimiter::None => ("", ""),
+                };
+                text.push_str(open);
+                text.push_str(&token_text(group.stream()));
+                text.push_str(close);
+            }
+            TokenTree::Punct(punct) if punct.as_char() == ',' && tokens.peek().is_none() => {
+                continue;
+            }
+            token => text.push_str(&token.to_string()),
+        }
+        text.push(' ');
+    }
+    text
 }
 
 fn indexed_name_to_ident(name: &str, index: u32) -> Ident {
